@@ -1,8 +1,13 @@
 import Deb822Verif.Driver.Proto
 import Deb822Verif.Model.DeriveCodecs
+import Deb822Verif.Model.DeriveTree
 import Deb822Verif.Gen.Structs
 /-! Driver family `derive` (C16): the macro model of `Model/Derive.lean` over the generated struct
-    table; leaf codecs from `DeriveCodecs.registry`, external ones answered from the request. -/
+    table; leaf codecs from `DeriveCodecs.registry`, external ones answered from the request.
+    Back-end: `lossy` requests run the list model (`lossyBackend`), `lossless` requests the TREE model
+    (`treeBackend` = `Props/C16Lossless.losslessBackend`: `paraOfPairs`, `paraSet`, `paraRemove`,
+    `Deb.get`; a textual prior is parsed by `paragraphFromStr`); every `ok` answer carries the printed
+    text of the resulting paragraph (`Lossy.printPara` / the tree's text). -/
 namespace Deb822Verif.Driver.Derive
 open Deb822Verif Proto Derive
 
@@ -66,7 +71,7 @@ def decVal (t : String) : Option (Option Val) :=
 
 def handle (op : String) (args : List String) : Option String :=
   match op, args with
-  | "derive.value", id :: _backend :: toks => do
+  | "derive.value", id :: backend :: toks => do
     let row ← findStruct id
     if toks.length ≠ row.fields.length then none
     else
@@ -75,12 +80,17 @@ def handle (op : String) (args : List String) : Option String :=
       | none => pure "bad-ext"
       | some sk =>
         let spec := sk.map (·.1)
-        let items := toFields spec x
-        let rt := match fromFields (lookupFirst items) spec with
+        let verdict (r : Except Str (List (Option Val))) : String := match r with
           | .ok y => if y = x then "rt:same" else "rt:diff"
           | .error e => s!"rt:err {encStr e}"
-        pure s!"ok {showItems items} {rt}"
-  | "derive.from", [id, _backend, ks, vs, es] => do
+        if backend == "lossless" then
+          let q := toParagraph treeBackend spec x
+          pure s!"ok {showItems (Deb.items q)} {verdict (fromParagraph treeBackend spec q)}"
+        else if backend == "lossy" then
+          let q := toParagraph lossyBackend spec x
+          pure s!"ok {showItems q} {verdict (fromParagraph lossyBackend spec q)}"
+        else none
+  | "derive.from", [id, backend, ks, vs, es] => do
     let row ← findStruct id
     let entries ← mkEntries (← decList ks) (← decList vs) (← decExtList es)
     match row.fields.mapM (specOf entries) with
@@ -88,10 +98,20 @@ def handle (op : String) (args : List String) : Option String :=
     | some sk =>
       let spec := sk.map (·.1)
       let items := entries.map fun e => (e.key, e.value)
-      match fromFields (lookupFirst items) spec with
-      | .ok x => pure (s!"ok {showItems (toFields spec x)}")
-      | .error e => pure s!"err {encStr e}"
-  | "derive.update", [id, _backend, ks, vs, es, pks, pvs, _pt] => do
+      if backend == "lossless" then
+        match fromParagraph treeBackend spec (treeBackend.ofList items) with
+        | .ok x =>
+          let q := toParagraph treeBackend spec x
+          pure (s!"ok {showItems (Deb.items q)} {encStr q.text}")
+        | .error e => pure s!"err {encStr e}"
+      else if backend == "lossy" then
+        match fromParagraph lossyBackend spec (lossyBackend.ofList items) with
+        | .ok x =>
+          let q := toParagraph lossyBackend spec x
+          pure (s!"ok {showItems q} {encStr (Deb.Lossy.printPara q)}")
+        | .error e => pure s!"err {encStr e}"
+      else none
+  | "derive.update", [id, backend, ks, vs, es, pks, pvs, pt] => do
     let row ← findStruct id
     let entries ← mkEntries (← decList ks) (← decList vs) (← decExtList es)
     let pks ← decList pks
@@ -106,8 +126,27 @@ def handle (op : String) (args : List String) : Option String :=
         match fromFields (lookupFirst items) spec with
         | .error e => pure s!"src-err {encStr e}"
         | .ok x =>
-          let after := updateParagraph lossyBackend spec x (pks.zip pvs)
-          pure (s!"ok {showItems after}")
+          if backend == "lossless" then
+            -- the prior paragraph: built from the pairs, or parsed from the text
+            let prior : Option Deb.DNode :=
+              if pt == "-" then some (treeBackend.ofList (pks.zip pvs))
+              else match decStr pt with
+                | none => none
+                | some text =>
+                  match Deb.paragraphFromStr text with
+                  | .ok p => some p
+                  | .error _ => if pks.isEmpty then some (.node .PARAGRAPH []) else none
+            match prior with
+            | none => pure "bad-prior"
+            | some p =>
+              if Deb.items p ≠ pks.zip pvs then pure "bad-prior"
+              else
+                let after := updateParagraph treeBackend spec x p
+                pure (s!"ok {showItems (Deb.items after)} {encStr after.text}")
+          else if backend == "lossy" then
+            let after := updateParagraph lossyBackend spec x (pks.zip pvs)
+            pure (s!"ok {showItems after} {encStr (Deb.Lossy.printPara after)}")
+          else none
   | _, _ => none
 
 end Deb822Verif.Driver.Derive
